@@ -37,6 +37,41 @@ CHECKS = {
         note="Temperatures and tolerance concrete dyadic rationals; symbolic targets written to the sampler's private fields (the public setter is exercised with floats); N<=3 quick, N<=4 thorough.",
         ref="6/C07",
     ),
+    "C08": dict(
+        text="Whole SMC runs of the real MiniPCNSMC/EmceeSMC sample() loop with symbolic populations, kernel outputs and resample indices: every recorded per-step ratio equals log mean exp((b'-b)(L+PI-Q)) recomputed from the population stored before that step's resampling (via uninterpreted L, PI, Q of the stored coordinates), every per-step variance equals Var(w)/(N mean(w)^2), log_evidence is their sum and log_evidence_error the root of the summed variances, with and without final-sample enlargement.",
+        note="Loop harness bounds: N=2 (quick) / N<=3 (thorough) particles, d=1, <=2 (quick) / <=4 (thorough) iterations, schedules fixed 1/2(/4), adaptive with min_step 1/2 (and max_n_steps, unbounded in thorough; paths reaching the unrolling bound are counted as cut); user functions, proposal, generator and MCMC kernels are stubs (uninterpreted functions / symbolic streams / fake kernel modules); SMCSampler.sample is a logging-stripped copy of the current source with beta_tolerance 1/4.",
+        ref="6/C08",
+    ),
+    "C10": dict(
+        text="For every population a run hands out or records (initial, each history entry, final, and the same in every resumed run): stored log_likelihood/log_prior/log_q of row i equal L, PI, Q of row i's coordinates (UF congruence: a value paired with another row's coordinates is refutable), initial and final sizes as requested. The initial-population harness in the FP sort lets the prior be -inf/NaN per row so that the finite-prior filter, concatenation and trimming of draw_initial_samples run symbolically.",
+        note="Loop harness bounds: N=2 (quick) / N<=3 (thorough) particles, d=1, <=2 (quick) / <=4 (thorough) iterations, schedules fixed 1/2(/4), adaptive with min_step 1/2 (and max_n_steps, unbounded in thorough; paths reaching the unrolling bound are counted as cut); user functions, proposal, generator and MCMC kernels are stubs (uninterpreted functions / symbolic streams / fake kernel modules); SMCSampler.sample is a logging-stripped copy of the current source with beta_tolerance 1/4. FP harness: N<=2 requested, <=2 draw rounds (cut beyond), Float64.",
+        ref="6/C10",
+    ),
+    "C11": dict(
+        text="Two runs per path: a reference run checkpointing every iteration (payload serialised with the sampler's own serialize_checkpoint; symbolic populations survive pickling) and, for every checkpoint, a fresh sampler with a generator in a different state resumed from the bytes / the unpickled dict / a real HDF5 file written by default_file_checkpoint_callback after a fault injected at every likelihood call; the solver shows equal temperature ladders, populations, evidence and every history series.",
+        note="Loop harness bounds: N=2 (quick) / N<=3 (thorough) particles, d=1, <=2 (quick) / <=4 (thorough) iterations, schedules fixed 1/2(/4), adaptive with min_step 1/2 (and max_n_steps, unbounded in thorough; paths reaching the unrolling bound are counted as cut); user functions, proposal, generator and MCMC kernels are stubs (uninterpreted functions / symbolic streams / fake kernel modules); SMCSampler.sample is a logging-stripped copy of the current source with beta_tolerance 1/4. Known finding C11-D6 (rescaled min_step not checkpointed) is listed in known_findings.json; Aspire.resume_from_file route not exercised.",
+        ref="6/C11",
+    ),
+    "C12": dict(
+        text="Partial. Cadence: checkpoint_every is a symbolic integer in {1,2,3}; the callback sequence equals {t: t mod every = 0} plus the forced final one and every payload carries the loop's current population, temperature and history length. After a fault at every likelihood call the real HDF5 file holds byte-for-byte the most recent payload. Blob overwrite: the real dump_pickle_to_hdf against a dataset model with symbolic old/new lengths leaves exactly the new blob (length and content at every index).",
+        note="Loop harness bounds: N=2 (quick) / N<=3 (thorough) particles, d=1, <=2 (quick) / <=4 (thorough) iterations, schedules fixed 1/2(/4), adaptive with min_step 1/2 (and max_n_steps, unbounded in thorough; paths reaching the unrolling bound are counted as cut); user functions, proposal, generator and MCMC kernels are stubs (uninterpreted functions / symbolic streams / fake kernel modules); SMCSampler.sample is a logging-stripped copy of the current source with beta_tolerance 1/4. Atomicity of a write interrupted inside h5py and the /aspire_config, /flow groups (C14) are outside.",
+        ref="6/C12",
+    ),
+    "C17": dict(
+        text="The likelihood stub poses, at every call made during whole runs (initial draws, kernel target evaluations, post-mutation re-evaluation, final enlargement, resumed runs), the obligations that the sample set it receives carries a log_prior of the right length equal to PI of exactly those coordinates, and at the end that n_likelihood_evaluations equals the number of points it was asked for; also on sampler.log_prob directly (C05 harness) .",
+        note="Loop harness bounds: N=2 (quick) / N<=3 (thorough) particles, d=1, <=2 (quick) / <=4 (thorough) iterations, schedules fixed 1/2(/4), adaptive with min_step 1/2 (and max_n_steps, unbounded in thorough; paths reaching the unrolling bound are counted as cut); user functions, proposal, generator and MCMC kernels are stubs (uninterpreted functions / symbolic streams / fake kernel modules); SMCSampler.sample is a logging-stripped copy of the current source with beta_tolerance 1/4.",
+        ref="6/C17",
+    ),
+    "C18": dict(
+        text="On every path of whole runs and of every resumed run: each populated series has one entry per iteration, sample_history has K+1 entries (initial + one per iteration), each stored population carries its temperature, and each recorded ESS / ESS-at-one / target efficiency equals its definition recomputed from the neighbouring stored populations and temperatures.",
+        note="Loop harness bounds: N=2 (quick) / N<=3 (thorough) particles, d=1, <=2 (quick) / <=4 (thorough) iterations, schedules fixed 1/2(/4), adaptive with min_step 1/2 (and max_n_steps, unbounded in thorough; paths reaching the unrolling bound are counted as cut); user functions, proposal, generator and MCMC kernels are stubs (uninterpreted functions / symbolic streams / fake kernel modules); SMCSampler.sample is a logging-stripped copy of the current source with beta_tolerance 1/4. mcmc_acceptance is required to have one entry per kernel invocation (the final enlargement is a kernel invocation).",
+        ref="6/C18",
+    ),
+    "C20": dict(
+        text="Partial. Two executions on the same symbolic random stream yield identical terms for every output and history series, and random-source provenance: every draw is served by the generator object the user supplied through the sampler constructor, through sample(rng=...) and through the real Aspire.sample_posterior keyword routing; construction of any fresh generator is observed.",
+        note="Loop harness bounds: N=2 (quick) / N<=3 (thorough) particles, d=1, <=2 (quick) / <=4 (thorough) iterations, schedules fixed 1/2(/4), adaptive with min_step 1/2 (and max_n_steps, unbounded in thorough; paths reaching the unrolling bound are counted as cut); user functions, proposal, generator and MCMC kernels are stubs (uninterpreted functions / symbolic streams / fake kernel modules); SMCSampler.sample is a logging-stripped copy of the current source with beta_tolerance 1/4. Flow construction/training seeds (torch.manual_seed, JAX keys) and third-party kernels are outside; known finding C20-D10.",
+        ref="6/C20",
+    ),
     "C09": dict(
         text="For the real SMCSamples.resample: the probability vector handed to the generator is proportional to exp((b1-b0)(ll+lp-lq)) and sums to one, and with a symbolic index vector (one ite-select path covers all N^M index vectors) every output row equals its source row in x, log_likelihood, log_prior and log_q; new beta, requested size, parameters and dtype preserved.",
         note="Temperatures on the grid {0,1/4,1/2,3/4,1}; N<=3 (quick) / N<=4 (thorough), d=2; generator stub; reals for floats.",
